@@ -39,6 +39,32 @@ pub fn ref_strip(s: &str) -> String {
     out
 }
 
+/// The string-to-string parts only (escape / unescape inverse, no raw reserved character, strip = reference and
+/// idempotent): these hold for EVERY string, encodable on the wire or not.
+pub fn check_pure(s: &str, order: u64, site: &str, acc: &mut Acc) {
+    acc.eval();
+    let replay = json!({"site": site, "index": order, "string": s});
+    let r = guard(|| {
+        let e = escape(s).to_string();
+        let u = unescape(&e).to_string();
+        let st = strip(s).to_string();
+        let st2 = strip(&st).to_string();
+        let ste = strip(&e).to_string();
+        (e, u, st, st2, ste)
+    });
+    let (e, u, st, st2, ste) = match r { Ok(x) => x, Err(p) => { acc.violate(order, "C12|panic".into(), format!("{s:?}: {p}"), replay); return; } };
+    let mut ok = true;
+    if u != s { ok = false; acc.violate(order, "C12|escape|unescape-is-not-the-inverse".into(), format!("unescape(escape({s:?})) = unescape({e:?}) = {u:?}"), replay.clone()); }
+    for c in RESERVED { if e.contains(c) { ok = false; acc.violate(order, format!("C12|escape|reserved-character-raw|{}", c as u32), format!("escape({s:?}) = {e:?} still contains {c:?}"), replay.clone()); } }
+    let want = ref_strip(s);
+    if st != want { ok = false; acc.violate(order, "C12|strip|differs-from-reference".into(), format!("strip({s:?}) = {st:?}, expected {want:?}"), replay.clone()); }
+    if st2 != st { ok = false; acc.violate(order, "C12|strip|not-idempotent".into(), format!("strip({s:?}) = {st:?} but strip of that = {st2:?}"), replay.clone()); }
+    // (escaped text is what strip usually sees: a caret that was not a colour code arrives as ^^)
+    let want_e = ref_strip(&e);
+    if ste != want_e { ok = false; acc.violate(order, "C12|strip|differs-from-reference".into(), format!("strip({e:?}) = {ste:?}, expected {want_e:?}"), replay); }
+    if ok { acc.class("pure-string-laws-hold"); acc.nontrivial(); } else { acc.class("violates"); }
+}
+
 pub fn check(s: &str, order: u64, site: &str, acc: &mut Acc) {
     acc.eval();
     let replay = json!({"site": site, "index": order, "string": s});
@@ -232,6 +258,23 @@ pub fn sites(tier: Tier) -> Vec<Site> {
                     _ => format!("{c}^1"),
                 };
                 check(&s, i, "caret-then-any-character", acc);
+            })
+    },
+    {
+        // every Unicode scalar value (not only the characters of the ten pages) next to carets, escaped carets and colour
+        // codes: the string-to-string laws hold for every string, so no character may play a part of its own in them
+        let n = 0x11_0000u64 * 4;
+        Site::new("any-scalar-value", n,
+            "every Unicode scalar value c (all 1 112 064) in the contexts c^^, ^^c^1, a^2c^^_^^, ^c: escape / unescape inverse, no raw reserved character, strip = reference (on the text and on its escaped form) and idempotent",
+            move |i, acc| {
+                let Some(c) = char::from_u32((i / 4) as u32) else { return };
+                let s = match i % 4 {
+                    0 => format!("{c}^^"),
+                    1 => format!("^^{c}^1"),
+                    2 => format!("a^2{c} ^_^"),
+                    _ => format!("^{c}"),
+                };
+                check_pure(&s, i, "any-scalar-value", acc);
             })
     },
     {
